@@ -4,22 +4,31 @@
     while reads pending:
         token <- some finished read on `port`
         TerminationToken(status): if status != COMPLETED: checklist[port].clear()        -- as written
+                                  [repaired: if status in (FAILED, CANCELLED): failed = True; cancel the reads of
+                                   the ports that already terminated]
                                   terminated += port
         IterationTerminationToken(tag): checklist[port].discard(tag)
         data token(tag): if prefix(tag) not in checklist[port]: checklist[port].add(tag); combine (abstracted)
-        if not (port in terminated and checklist[port] empty): start a new read on port
+        if not (port in terminated and ([repaired: failed or] checklist[port] empty)): start a new read on port
 
 Ports are FIFO streams that end with their termination token (the producer terminated). `fixed = true` is the
-repaired loop (fixes/C04-loop-combinator-failed-input.patch): after a non-COMPLETED termination the reads of already
-terminated ports are cancelled and a terminated port is never read again. -/
+repaired loop (fixes/C04-loop-combinator-failed-input.patch): after a FAILED / CANCELLED termination the reads of
+already terminated ports are cancelled and a terminated port is never read again. -/
 namespace SFV.LoopComb
 
 abbrev Tag := List Nat
 
+/-- status carried by a termination token, as far as the loop distinguishes it -/
+inductive TermSt where
+  | completed
+  | skipped                   -- any other non-failure status (SKIPPED, RECOVERED)
+  | failed                    -- FAILED or CANCELLED
+deriving DecidableEq, Repr
+
 inductive Tok where
   | data (t : Tag)
   | iterTerm (t : Tag)
-  | term (ok : Bool)          -- TerminationToken; `ok` = status COMPLETED
+  | term (st : TermSt)        -- TerminationToken
 deriving DecidableEq, Repr
 
 structure PortSt where
@@ -40,8 +49,8 @@ def initSt (streams : List (List Tok)) : St :=
 def prefixOf (t : Tag) : Tag := t.dropLast
 
 /-- the effect of one token on its port (before deciding whether to read again) -/
-def consume (fixed : Bool) (p : PortSt) : Tok → PortSt
-  | .term ok => { p with checklist := if ok || fixed then p.checklist else [], terminated := true }
+def consume (p : PortSt) : Tok → PortSt
+  | .term st => { p with checklist := if st = .completed then p.checklist else [], terminated := true }
   | .iterTerm t => { p with checklist := p.checklist.erase t }
   | .data t => if p.checklist.contains (prefixOf t) then p else { p with checklist := p.checklist ++ [t] }
 
@@ -54,8 +63,8 @@ def step (fixed : Bool) (s : St) (i : Nat) : Option St :=
         match p.stream with
         | [] => none                                   -- nothing will ever arrive: the read blocks forever
         | tok :: rest =>
-            let p1 := consume fixed { p with stream := rest } tok
-            let bad := match tok with | .term false => true | _ => false
+            let p1 := consume { p with stream := rest } tok
+            let bad := match tok with | .term .failed => true | _ => false
             let failed' := s.failed || (fixed && bad)
             let rearm := if fixed then !(p1.terminated && (failed' || p1.checklist.isEmpty))
                          else !(p1.terminated && p1.checklist.isEmpty)
